@@ -715,8 +715,8 @@ def run(ctx) -> None:
              "dict - not spliced into the text) only on paths that established <match>.start() == 0 and <match>.end() == len(<string>): "
              "the reference is the whole string, nothing before it was substituted away")
     ctx.rule("C06.R14-substitution-reaches-into-dictionaries", "parameter references are substituted wherever their existence is checked: the validator "
-             "descends into dictionary-valued arguments, so replace_parameter_references must substitute inside them too (fails on the "
-             "current tree: known finding)")
+             "descends into dictionary-valued arguments, so replace_parameter_references must substitute inside them too (defect "
+             "594ea4c, repaired)")
     ctx.rule("C06.R13-first-element-of-a-possibly-empty-field", "dsl.py reads <object>.<field>[0] of a schema list whose default is [] only where the "
              "list was tested non-empty, or where the empty case recorded a located error that is raised before the read")
     ctx.rule("C06.R9-ancestor-chain-is-balanced", "the cycle detector of ScopeStack decides from containers that enter() grows and exit() "
@@ -904,6 +904,10 @@ def run(ctx) -> None:
             kw = {k.arg: k.value for k in c.keywords}
             v = kw.get("variables")
             in_component_body = q.startswith("ComponentFlowIR.")
+            if q == "replace_parameter_references" and isinstance(v, ast.Name) and v.id in {a_.arg for a_ in fn.args.args + fn.args.kwonlyargs}:
+                # the helper recursing into a container value hands its own ignore list on unchanged: no new ignore list is introduced
+                ctx.ob("C06.R5-ignore-list-scope", c, True, "the recursion into a container value passes the helper's own ignore list through unchanged")
+                continue
             if in_component_body:
                 ok = v is not None and source.src(v).endswith("template.variables")
                 ctx.ob("C06.R5-ignore-list-scope", c, ok,
